@@ -256,7 +256,7 @@ func cmdRun(args []string) {
 	type ra struct{ in, hit map[string]bool }
 	audit := map[string]*ra{}
 	for _, r := range results {
-		undecided := len(r.Aborted) > 0 || r.PathLimit || r.UnknownBr > 0
+		undecided := len(r.Aborted) > 0 || r.PathLimit || r.UnknownBr > 0 || r.KFUndecided
 		for _, o := range r.Obls {
 			if o.Verdict == "inconclusive" {
 				undecided = true
